@@ -59,3 +59,12 @@ pub open spec fn spec_header_offset<H>(reserved: int, unify: bool) -> int {
 pub open spec fn spec_data_offset<H>(reserved: int, unify: bool) -> int {
   if unify { spec_header_offset::<H>(reserved, true) + size_of::<H>() as int } else { reserved + 1 }
 }
+
+/// a non-zero size that is a multiple of the alignment is at least the alignment
+pub proof fn lemma_size_ge_align<T>()
+  requires layout_ok::<T>()
+  ensures size_of::<T>() > 0 ==> size_of::<T>() >= align_of::<T>()
+{
+  let s = size_of::<T>() as int; let a = align_of::<T>() as int;
+  if s > 0 && s < a { vstd::arithmetic::div_mod::lemma_small_mod(s as nat, a as nat); }
+}
